@@ -5,15 +5,17 @@ open Wire Model.C12
 /-! line protocol over the C12 model (Float).  Requests:
   hist <rows> <cols> <dx> <latcaled 0|1> { <method> <arg> <shape_r> <shape_c> <off_r> <off_c> }*
         -> per step: rows cols dx lat  xp xr xc xo xsp  yp yr yc yo ysp  rp tp   (steps joined by " | ")
+  histg ... { <ntokens> <effect tokens>* <arg> <shape_r> <shape_c> <off_r> <off_c> }*   same, each operation carrying the effect
+        list to execute (the harness sends the lists translated from the current source)
   stats <v>*            -> nvalid mean meanSq var sa pv
   piston <v>*           -> <v>*
   tilt <rows> <cols> <xo> <xsp> <yo> <ysp> <v>*   -> c1 c2 <v>*
   power <rows> <cols> <v>*                         -> c1 c2 <v>*
   crop <rows> <cols> <v>*                          -> none | r0 r1 c0 c1
   effs <method>                                    -> repr of the hand-written effect list
-floats travel as IEEE bit patterns; NaN = invalid sample. -/
+floats travel as IEEE bit patterns; non-finite (NaN, +inf, -inf) = invalid sample. -/
 
-def optOf (x : Float) : Option Float := if x.isNaN then none else some x
+def optOf (x : Float) : Option Float := if x.isFinite then some x else none
 def nan : Float := 0.0 / 0.0
 def fmtOpt (o : Option Float) : String := fmtFloat (o.getD nan)
 
@@ -38,6 +40,66 @@ partial def histLoop (s : State Float) (acc : List String) : List String → Opt
       histLoop s' (fmtState s' :: acc) rest
     | _, _, _, _, _, _ => none
   | _ => none
+
+/-! effect lists sent over the wire (the harness sends the lists the TRANSLATOR read off the current source) -/
+def parseXY? : String → Option XY
+  | "x" => some .x | "y" => some .y | _ => none
+def parseRT? : String → Option RT
+  | "r" => some .r | "t" => some .t | _ => none
+def parseW? : String → Option DataW
+  | "arith" => some .arith | "setInvalid" => some .setInvalid | "setValue" => some .setValue | "replace" => some .replace
+  | _ => none
+def parseVal? : List String → Option (Val × List String)
+  | "one" :: r => some (.one, r)
+  | "dx" :: r => some (.dx, r)
+  | "arg" :: n :: r => n.toNat?.map fun n => (.arg n, r)
+  | "saved" :: n :: r => n.toNat?.map fun n => (.saved n, r)
+  | _ => none
+
+partial def parseEff? : List String → Option (Eff × List String)
+  | "dataReshape" :: n :: r => n.toNat?.map fun n => (.dataReshape n, r)
+  | "dataWrite" :: w :: r => (parseW? w).map fun w => (.dataWrite w, r)
+  | "setDx" :: r => (parseVal? r).map fun (v, r) => (.setDx v, r)
+  | "saveDx" :: n :: r => n.toNat?.map fun n => (.saveDx n, r)
+  | "setLatcaled" :: b :: r => some (.setLatcaled (b == "true"), r)
+  | "fillXY" :: c :: r => (parseXY? c).map fun c => (.fillXY c, r)
+  | "fillRT" :: c :: r => (parseRT? c).map fun c => (.fillRT c, r)
+  | "freshXY" :: r => some (.freshXY, r)
+  | "freshRT" :: r => some (.freshRT, r)
+  | "reslice" :: c :: n :: r => do let c ← parseXY? c; let n ← n.toNat?; pure (.reslice c n, r)
+  | "resliceP" :: c :: n :: r => do let c ← parseRT? c; let n ← n.toNat?; pure (.resliceP c n, r)
+  | "scale" :: c :: r => do let c ← parseXY? c; let (v, r) ← parseVal? r; pure (.scale c v, r)
+  | "center" :: c :: r => (parseXY? c).map fun c => (.center c, r)
+  | "clearXY" :: c :: r => (parseXY? c).map fun c => (.clearXY c, r)
+  | "clearRT" :: c :: r => (parseRT? c).map fun c => (.clearRT c, r)
+  | "opaqueXY" :: c :: r => (parseXY? c).map fun c => (.opaqueXY c, r)
+  | "opaqueRT" :: c :: r => (parseRT? c).map fun c => (.opaqueRT c, r)
+  | "guardXY" :: c :: r => do let c ← parseXY? c; let (e, r) ← parseEff? r; pure (.guardXY c e, r)
+  | "guardRT" :: c :: r => do let c ← parseRT? c; let (e, r) ← parseEff? r; pure (.guardRT c e, r)
+  | _ => none
+
+partial def parseEffs? (acc : List Eff) : List String → Option (List Eff)
+  | [] => some acc.reverse
+  | toks => match parseEff? toks with
+    | some (e, r) => parseEffs? (e :: acc) r
+    | none => none
+
+/-- like `histLoop`, but every operation carries its own effect list: `<ntokens> <tokens>* <arg> <sr> <sc> <or> <oc>` -/
+partial def histgLoop (s : State Float) (acc : List String) : List String → Option (List String)
+  | [] => some acc.reverse
+  | n :: rest =>
+    match n.toNat? with
+    | none => none
+    | some n =>
+      match parseEffs? [] (rest.take n), rest.drop n with
+      | some effs, a :: sr :: sc :: or_ :: oc :: rest' =>
+        match parseFloatBits? a, sr.toNat?, sc.toNat?, or_.toNat?, oc.toNat? with
+        | some a, some sr, some sc, some or_, some oc =>
+          let env : Env Float := ⟨fun _ => a, fun _ => (sr, sc), fun _ => (or_, oc), zeroAxis, ⟨zeroAxis, zeroAxis⟩⟩
+          let s' := run env s effs
+          histgLoop s' (fmtState s' :: acc) rest'
+        | _, _, _, _, _ => none
+      | _, _ => none
 
 def floats? (l : List String) : Option (List Float) := l.mapM parseFloatBits?
 
@@ -66,6 +128,14 @@ def step (t : List String) : String :=
     | some rows, some cols, some dx, some lat =>
       let s0 : State Float := ⟨rows, cols, dx, lat != 0, none, none, none, none, fun _ => 0.0⟩
       match histLoop s0 [] ops with
+      | some out => " | ".intercalate out
+      | none => "bad-op"
+    | _, _, _, _ => "bad-op"
+  | "histg" :: rows :: cols :: dx :: lat :: ops =>
+    match rows.toNat?, cols.toNat?, parseFloatBits? dx, lat.toNat? with
+    | some rows, some cols, some dx, some lat =>
+      let s0 : State Float := ⟨rows, cols, dx, lat != 0, none, none, none, none, fun _ => 0.0⟩
+      match histgLoop s0 [] ops with
       | some out => " | ".intercalate out
       | none => "bad-op"
     | _, _, _, _ => "bad-op"
@@ -101,7 +171,7 @@ def step (t : List String) : String :=
   | "crop" :: rows :: cols :: vs =>
     match rows.toNat?, cols.toNat?, floats? vs with
     | some rows, some cols, some vs =>
-      let arr := (vs.map fun x => !x.isNaN).toArray
+      let arr := (vs.map fun x => x.isFinite).toArray
       let v := fun (i j : Nat) => arr.getD (i * cols + j) false
       match cropBox v rows cols with
       | none => "none"
